@@ -162,14 +162,19 @@ impl Scenario for C17Twin {
                 let s2 = sched.clone();
                 let _ = set_sleep(Some(SleepFn(Box::new(move |d: Duration| s2.sleep(me, d)))));
                 let tbus = Rc::new(RefCell::new(DirectBus(twin_world.clone())));
+                // Sign objects are kept across steps while address and type stay the same, so
+                // state a controller carries between calls travels down both paths alike.
+                let mut current: Option<(Address, SignType, Sign, Sign)> = None;
                 for (k, st) in steps.iter().enumerate() {
                     if cx.failed() || cx.is_discarded() || sched.stalled().is_some() {
                         break;
                     }
-                    let sign = Sign::new(sbus.clone(), st.addr, st.ty);
-                    let twin = Sign::new(tbus.clone(), st.addr, st.ty);
+                    if !matches!(&current, Some((a, t, _, _)) if *a == st.addr && *t == st.ty) {
+                        current = Some((st.addr, st.ty, Sign::new(sbus.clone(), st.addr, st.ty), Sign::new(tbus.clone(), st.addr, st.ty)));
+                    }
+                    let (_, _, sign, twin) = current.as_ref().unwrap();
                     cx.note(|| format!("op #{k}: controller({:#06x}, {:?}).{}", st.addr.0, st.ty, st.op.name()));
-                    let out_serial = ops::apply(&sign, &st.op);
+                    let out_serial = ops::apply(sign, &st.op);
                     if sched.stalled().is_some() {
                         // The serial path did not finish within the step budget. That is a
                         // divergence only if the same operation does finish directly on the bus.
@@ -177,7 +182,7 @@ impl Scenario for C17Twin {
                             let mut t = twin_world.lock();
                             t.delivery_cap = t.delivered + 20_000;
                         }
-                        let out_twin = ops::apply(&twin, &st.op);
+                        let out_twin = ops::apply(twin, &st.op);
                         if twin_world.lock().capped {
                             cx.probe("operation_ends_on_neither_path");
                         } else {
@@ -191,7 +196,7 @@ impl Scenario for C17Twin {
                     // let the bridge drain whatever is still in the line
                     sched.wait_quiescent(me);
                     let backlog = sched.pipe_len(0);
-                    let out_twin = ops::apply(&twin, &st.op);
+                    let out_twin = ops::apply(twin, &st.op);
                     cx.hash_event("op", &(k, st.op.code(), &out_serial, &out_twin));
                     cx.note(|| format!("   over serial: {out_serial:?}    direct: {out_twin:?}"));
                     if serial_world.lock().dead || twin_world.lock().dead {
